@@ -3042,8 +3042,8 @@ pub fn matrix_column_elements(&mut self, column_elements: &[&MatrixColumn]) -> S
       SetOp::Intersection => "∩".to_string(),
       SetOp::Difference => "∖".to_string(),
       SetOp::Complement => "∁".to_string(),
-      SetOp::Subset => "⊂".to_string(),
-      SetOp::Superset => "⊃".to_string(),
+      SetOp::Subset => "⊆".to_string(),
+      SetOp::Superset => "⊇".to_string(),
       SetOp::ProperSubset => "⊊".to_string(),
       SetOp::ProperSuperset => "⊋".to_string(),
       SetOp::ElementOf => "∈".to_string(),
